@@ -29,7 +29,7 @@ fn sweep(rep: &Report, tier: Tier) {
         format!("{{\"operations\":[{{\"Create\":{{\"uuid\":\"{}\"}}}}]}} {MARKER}", v(9)).into_bytes(),
         (0..65536u32).map(|i| (i % 251) as u8).collect(),
     ];
-    let secrets: Vec<Vec<u8>> = vec![b"s".to_vec(), b"correct horse battery staple".to_vec(), vec![0u8, 255, 1, 254]];
+    let secrets: Vec<Vec<u8>> = vec![b"s".to_vec(), b"correct horse battery staple".to_vec(), b"correct horse battery staple\n".to_vec(), vec![0u8, 255, 1, 254]];
     let salts: Vec<Vec<u8>> = vec![b"0123456789abcdef".to_vec(), client_id().as_bytes().to_vec(), vec![7u8; 16]];
     let vids = [Uuid::nil(), v(1), Uuid::from_u128(u128::MAX)];
     let mut nonces = std::collections::BTreeSet::new();
